@@ -30,8 +30,10 @@ def fail(ident, what, witness, wclass="value"):
         failures[ident] = {"ident": ident, "witness_class": wclass, "what": what, "witness": witness}
 
 
-# 13 atoms: positional, named, numeric-named, with blanks / newlines (plain-text names and values)
-ATOMS = ["v", " v ", "\nv", "w x", "k=v", " k = v ", "k=\nv", "n m = v w ", "2=v", " 3 = v ", "02=v", "j=a b", "0=z"]
+# atoms: positional, named, numeric-named, with blanks / newlines (plain-text names and values)
+ATOMS = ["v", " v ", "\nv", "w x", "k=v", " k = v ", "k=\nv", "n m = v w ", "2=v", " 3 = v ", "02=v", "j=a b", "0=z",
+         # blanks other than ASCII ones around names and values (str.strip / \s treat them as blanks)
+         "u=v\u00a0", "\u2009" + "4" + "\u2009=b", "\u3000w\u3000=\u00a0x y\u2009"]
 
 
 def name_of(atom):
